@@ -34,3 +34,19 @@ fn truncated_strings_block_is_rejected_not_hung() {
     let r = vtx::Vtx::load(Guarded(Cursor::new(f)));
     assert!(r.is_err());
 }
+
+#[test]
+fn zero_player_frequency_is_rejected_not_a_division_by_zero() {
+    // a real track with the player-frequency byte (offset 9) zeroed
+    let mut f = std::fs::read("/repo/vtx/src/test/csoon.vtx").unwrap();
+    f[9] = 0;
+    match vtx::Vtx::load(Cursor::new(f)) {
+        Err(_) => {}
+        Ok(v) => {
+            // before the fix the file loaded and the player divided by zero
+            let mut p = vtx::player::PrecisePlayer::new(v, 44100, true);
+            let mut buf = [0i16; 16];
+            let _ = p.play(&mut buf);
+        }
+    }
+}
